@@ -18,7 +18,8 @@ import json
 exp = json.load(open(os.path.join(V, "refactors", "EXPECTED.json"))) if os.path.exists(os.path.join(V, "refactors", "EXPECTED.json")) else {}
 bad = 0
 for name, fired, rules, na in res:
-    if name in exp and fired.strip() != "(none)" and all(r[0] == "RESIDUE" for r in rules):
+    allowed = set(exp[name]["rules"]) if name in exp and isinstance(exp[name], dict) else {"RESIDUE"}
+    if name in exp and fired.strip() != "(none)" and all(r[0] in allowed for r in rules):
         print("%-28s expected report: %s" % (name, fired)); continue
     if na:
         print("%-28s patch does not apply" % name)
